@@ -864,7 +864,7 @@ def check_C02(ctx):
                ('qpop_duplicate', mut_first(lambda e: e['e'] == 'QPop' and e['a'][1] > 0, lambda evs, i: evs[:i + 1] + [evs[i]] + evs[i + 1:])),
                ('drop_qpush', mut_first(ev('QPush'), drop_at)),
                ('schedrun_other', mut_first(ev('SchedRun'), set_arg(0, lambda v: v + 1)))],
-              cov=('MC_Core', 'MC_Core_cov.cfg', CORE_ACTIONS), small_queue=True)
+              cov=('MC_Core', 'MC_Core_cov.cfg', CORE_ACTIONS), small_queue=True, thorough_designs=[('MC_Core', 'MC_Core_wsapi.cfg')])
 
 
 def check_C04(ctx):
